@@ -1,32 +1,10 @@
 package sio
 
 import (
-	"reflect"
 	"time"
 
 	"github.com/karagenc/socket.io-go/parser"
 )
-
-// verifReplyDecode is the `decode` closure of an ACK packet carrying one string argument.
-func verifReplyDecode(val string) parser.Decode {
-	return func(types ...reflect.Type) ([]reflect.Value, error) {
-		out := make([]reflect.Value, len(types))
-		for i := range types {
-			v := val
-			out[i] = reflect.ValueOf(&v)
-		}
-		return out, nil
-	}
-}
-
-func verifServerSock() *serverSocket {
-	return &serverSocket{
-		nsp:           &Namespace{},
-		acks:          make(map[uint64]*ackHandler),
-		debug:         newNoopDebugger(),
-		errorHandlers: newHandlerStore[*ServerSocketErrorFunc](),
-	}
-}
 
 // C03_race_server: an ack with timeout on a server socket; the reply (optionally duplicated) races the timer in every
 // order. The callback runs exactly once; a reply that wins carries its own arguments; without any reply the callback
@@ -104,15 +82,6 @@ func verifH_C03_ids_server() {
 		verifAssert(errs == 2, "a reply with an unknown id is reported as an error")
 	}
 	verifReach("end")
-}
-
-func verifClientSock() *clientSocket {
-	return &clientSocket{
-		state:  clientSocketConnStateDisconnected,
-		config: &ClientSocketConfig{},
-		acks:   make(map[uint64]*ackHandler),
-		debug:  newNoopDebugger(),
-	}
 }
 
 // C03_offline_client: a disconnected client socket buffers m emits (each 1+a frames, some with ack + timeout); the
